@@ -18,6 +18,11 @@ from __future__ import annotations
 import json
 import os
 
+try:
+    import engines.xh.shim  # noqa: F401
+except ImportError:
+    pass
+
 from sqlglot import exp
 from sqlglot.dialects.dialect import Dialect
 from sqlglot.errors import TokenError
